@@ -577,4 +577,3 @@ func finalOutcomes(c *Cfg, st StepExp) ([]Perms, bool) {
 	}
 	return nil, false
 }
-
